@@ -373,6 +373,23 @@ func driveMerge(prop string, seed int64, tier, out, replay string) {
 			}
 		}
 	} else {
+		// hand-written mergeable sets for shapes the random stream reaches rarely, in every order
+		handSets := [][]string{
+			// a value type extended with disjoint fields by two and by three services
+			{"type Query { a: Photo }\ntype Photo { url: String }\n", "type Query { b: Photo }\ntype Photo { width: Int height: Int }\n"},
+			{"type Query { a: Address }\ntype Address { street: String }\n", "type Query { b: Address }\ntype Address { zip: String }\n", "type Query { c: Address }\ntype Address { city: String country: String }\n"},
+			// a shared value type with the same fields everywhere, implementing an interface in one service only
+			{"type Query { a: Audit changes: [Stamped] }\ninterface Stamped { at: String }\ntype Audit implements Stamped { at: String by: String }\n", "type Query { b: Audit }\ntype Audit { at: String by: String }\n"},
+			{"type Query { a: Money }\ntype Money { amount: Int unit: String }\n", "type Query { b: Money priced: [Priced] }\ninterface Priced { amount: Int }\ntype Money implements Priced { amount: Int unit: String }\n", "type Query { c: Money }\ntype Money { amount: Int unit: String }\n"},
+		}
+		for _, sdls := range handSets {
+			hc := mergeCase{Origin: "mergeable"}
+			for i, sdl := range sdls {
+				hc.SDLs = append(hc.SDLs, sdl)
+				hc.URLs = append(hc.URLs, fmt.Sprintf("http://svc%d", i))
+			}
+			addPerms(hc, "", 6)
+		}
 		for i := 0; i < nSets; i++ {
 			base := gen.Mergeable(rng, gen.Options{MaxServices: 4, Rich: true})
 			hide := rng.Intn(3) == 0
